@@ -86,8 +86,13 @@ Definition pass_node (now : Z) (r : rstate) (i : nat) : rstate :=
   st_finish i (st_after i (st_dry i (st_setup i (st_hidden i (st_mark i (st_stale i (st_wake now i (st_finish i (st_after i r))))))))).
 
 Definition pass (now : Z) (r : rstate) : rstate := fold_left (pass_node now) (seq 0 n) r.
+(* passes until one adds no label (or the fuel is spent) *)
 Fixpoint norm (fuel : nat) (now : Z) (r : rstate) : rstate :=
-  match fuel with 0 => r | S f => norm f now (pass now r) end.
+  match fuel with
+  | 0 => r
+  | S f => let r' := pass now r in
+           if length (lbl r') =? length (lbl r) then r' else norm f now r'
+  end.
 
 Definition feed (r : rstate) (e : event) : option rstate :=
   match e with
